@@ -199,6 +199,23 @@ func (s *Session) SetModuleState(moduleName string, state any) {
 	s.moduleStates[moduleName] = state
 }
 
+// ModuleStateOrInit returns the state registered for the module. If there is
+// none yet, the result of init is registered first. Lookup and registration
+// are one step: participants that join at the same moment (the session's
+// creator and a client that already knows or guesses the session id) all get
+// the same state.
+func (s *Session) ModuleStateOrInit(moduleName string, init func() any) any {
+	s.moduleMutex.Lock()
+	defer s.moduleMutex.Unlock()
+
+	state, ok := s.moduleStates[moduleName]
+	if !ok {
+		state = init()
+		s.moduleStates[moduleName] = state
+	}
+	return state
+}
+
 func (s *Session) ModuleState(moduleName string) (any, bool) {
 	s.moduleMutex.RLock()
 	defer s.moduleMutex.RUnlock()
